@@ -4,11 +4,11 @@
 (*   unregister(peer)             only when the peer has opened a session since its last one     *)
 (* Peer "p" uses session ids 1..MaxSid (a fresh id is always the smallest one not used since    *)
 (* p's last unregistration, so four live sessions need L >= 4); peer "q" uses session id 1 only *)
-(* (isolation of peers).  lim = the payload limit of all requests of the scenario               *)
+(* (isolation of peers; UseQ = FALSE leaves q out).  lim = the payload limit of all requests     *)
 (* ("n1": one item, "n2": two items, "s15": size 15 = two items of size 10).                     *)
 EXTENDS Integers, Sequences, TLC, Json
 
-CONSTANTS L, MaxSid, Chunks, Lims
+CONSTANTS L, MaxSid, Chunks, Lims, UseQ
 VARIABLES script, lim, usedp, usedq
 svars == <<script, lim, usedp, usedq>>
 
@@ -19,6 +19,7 @@ Next == \/ \E sid \in 1..Min(MaxSid, usedp + 1), ch \in Chunks :
              /\ Step([op |-> "request", p |-> "p", sid |-> sid, chunks |-> ch])
              /\ usedp' = (IF sid > usedp THEN sid ELSE usedp) /\ UNCHANGED usedq
         \/ \E ch \in Chunks :
+             /\ UseQ
              /\ Step([op |-> "request", p |-> "q", sid |-> 1, chunks |-> ch])
              /\ usedq' = 1 /\ UNCHANGED usedp
         \/ usedp > 0 /\ Step([op |-> "unregister", p |-> "p", sid |-> 0, chunks |-> 0]) /\ usedp' = 0 /\ UNCHANGED usedq
